@@ -341,7 +341,7 @@ func runC03(c *mon.Ctx) {
 		}
 	}
 	// random and mutated inputs
-	n := c.Pick(60000, 1000000)
+	n := c.Pick(60000, 3000000)
 	for i := int64(0); i < n; i++ {
 		if !c.Mine("mutated", i) {
 			continue
@@ -389,7 +389,7 @@ func runC03(c *mon.Ctx) {
 		}
 	}
 	// truncation at every offset of small well-formed streams
-	nt := c.Pick(40, 300)
+	nt := c.Pick(40, 1200)
 	for i := int64(0); i < nt; i++ {
 		if !c.Mine("truncate", i) {
 			continue
